@@ -254,9 +254,26 @@ func (e *UtlsPreSharedKeyExtension) SetOmitEmptyPsk(val bool) {
 	e.OmitEmptyPsk = val
 }
 
+// ensureCipherSuite derives the unexported cipher suite from the session when
+// the extension was initialized through its exported fields rather than by
+// InitializeByUtls.
+func (e *UtlsPreSharedKeyExtension) ensureCipherSuite() error {
+	if e.cipherSuite != nil || e.Session == nil {
+		return nil
+	}
+	e.cipherSuite = cipherSuiteTLS13ByID(e.Session.cipherSuite)
+	if e.cipherSuite == nil {
+		return errors.New("tls: UtlsPreSharedKeyExtension: the session does not use a TLS 1.3 cipher suite")
+	}
+	return nil
+}
+
 func (e *UtlsPreSharedKeyExtension) Read(b []byte) (int, error) {
 	if !e.OmitEmptyPsk && e.Len() == 0 {
 		return 0, ErrEmptyPsk
+	}
+	if err := e.ensureCipherSuite(); err != nil {
+		return 0, err
 	}
 	return readPskIntoBytes(b, e.Identities, e.Binders)
 }
@@ -271,6 +288,10 @@ func (e *UtlsPreSharedKeyExtension) PatchBuiltHello(hello *PubClientHelloMsg) er
 	}
 	private.original = hello.Raw
 	private.pskBinders = e.Binders // set the placeholder to the private Hello
+
+	if err := e.ensureCipherSuite(); err != nil {
+		return err
+	}
 
 	//--- mirror loadSession() begin ---//
 	transcript := e.cipherSuite.hash.New()
